@@ -3,6 +3,7 @@
 // the element is damaged).
 #pragma once
 #include "tracked.h"
+#include <cmath>
 #include <cstring>
 #include <string>
 
@@ -75,8 +76,17 @@ template<> struct Elem<TrackedThrowingMove> {
 
 template<> struct Elem<double> {
     static constexpr const char *name = "double";
-    static double make(int64_t v) { return (double) v + 0.25; }
-    static int64_t val(const double &x) { return x == (double) (int64_t) (x - 0.25) + 0.25 ? (int64_t) (x - 0.25) : INT64_MIN + 5; }
+    // every eleventh value is one of the two zeros: -0.0 == +0.0, only the representation tells them apart
+    static double make(int64_t v) {
+        int64_t m = ((v % 11) + 11) % 11;
+        if (m == 3) return -0.0;
+        if (m == 4) return 0.0;
+        return (double) v + 0.25;
+    }
+    static int64_t val(const double &x) {
+        if (x == 0) return std::signbit(x) ? INT64_MIN + 20 : INT64_MIN + 21;
+        return x == (double) (int64_t) (x - 0.25) + 0.25 ? (int64_t) (x - 0.25) : INT64_MIN + 5;
+    }
 };
 template<> struct Elem<unsigned char> {
     static constexpr const char *name = "byte";
